@@ -143,6 +143,22 @@ impl Sub for TopK {
                     if uniform == 2 {
                         corpus.deletes.truncate(1);
                     }
+                } else if uniform == 3 && corpus.docs.len() >= 6 {
+                    // block-max pruning: 4-8 template documents with different (term frequency, length) pairs replicated
+                    // until every segment holds several full 128-document posting blocks of the frequent words, and
+                    // mark words on the leading documents so that the average field length differs between the segments
+                    // (the block maxima are written with the statistics of the segment, the scores are computed with those
+                    // of the searcher)
+                    let t = 4 + (extra_cuts[0] as usize % 5);
+                    let templates: Vec<QDoc> = corpus.docs.iter().take(t).cloned().collect();
+                    corpus.docs = (0..40).map(|i| templates[(i * 3 + i / t) % templates.len()].clone()).collect();
+                    corpus.repeat = 40;
+                    corpus.cuts = extra_cuts.iter().take(2).cloned().collect();
+                    corpus.deletes.truncate(1);
+                    if corpus.marks.len() >= 2 {
+                        corpus.marks[0] = 300 + (extra_cuts[1] % 600);
+                        corpus.marks[1] = 900;
+                    }
                 }
                 TopKCase { corpus, probes, threads4 }
             })
@@ -217,6 +233,13 @@ impl Sub for TopK {
                     }
                     let exp_slice: Vec<(Score, DocAddress)> = exp.iter().skip(o).take(k).cloned().collect();
                     ensure!(got.len() == exp_slice.len(), "topk_wrong_length", "{ctxt}: got {} entries, expected {}", got.len(), exp_slice.len());
+                    if std::env::var("TVV_DEBUG").is_ok() && got != exp_slice {
+                        eprintln!("expected: {:?}", exp.iter().take(o + k + 4).map(|(s, a)| (*s, a.segment_ord, a.doc_id, um.uid(*a))).collect::<Vec<_>>());
+                        eprintln!("got:      {:?}", got.iter().map(|(s, a)| (*s, a.segment_ord, a.doc_id, um.uid(*a))).collect::<Vec<_>>());
+                        for (ord, seg) in searcher.segment_readers().iter().enumerate() {
+                            eprintln!("segment {ord}: max_doc {} alive {}", seg.max_doc(), seg.num_docs());
+                        }
+                    }
                     if exact_scores {
                         if got != exp_slice {
                             let pos = got.iter().zip(exp_slice.iter()).position(|(a, b)| a != b).unwrap_or(0);
